@@ -33,10 +33,10 @@ CLAIMED.update({
   "Krill.tla models CAs, delegation, key states, configured ROAs, what each CA publishes and the follow-up tasks of every change, at the grain of one API command / one background task. TLC checks exhaustively (bounded) that in every settled state the relying-party view derived from the published state is clean and the validated route origins are exactly the configured ones covered by a current certificate. The same spec judges the real code: TLC-generated behaviours (API calls interleaved with single named tasks and settle points) run on a real Krill; after every event the projected state must be exactly the successor the spec allows, every file under a key must be on its manifest and vice versa, and a relying-party walk over the real repository (rpki crate validation) must yield exactly the VRPs the spec derives and no problem in settled states.",
   "§6 C01, §4.3"),
  "C02": krill_claim(
-  "Same model and binding as C01. Decides: every newly issued child certificate is within entitlement and issuer certificate (step property), no published child certificate exceeds the publisher's own current certificate whenever its publication is up to date, a settle (refresh rounds + tasks to a fixed point, bounded to 8 rounds on the real code) leaves every active child with exactly the offered resources and no open request, and another round changes nothing (the harness's fixed point must be a Settled state of the spec).",
+  "Same model and binding as C01. Decides: every newly issued child certificate is within entitlement and issuer certificate (step property), no published child certificate exceeds the publisher's own current certificate whenever its publication is up to date, a settle (refresh rounds + tasks to a fixed point, bounded to 8 rounds on the real code) leaves every active child with exactly the offered resources and no open request, and another round changes nothing (the harness's fixed point must be a Settled state of the spec). Request limits, mapped class names and the signed RFC 6492 path are covered by children that are not hosted by the instance (Foreign in Krill.tla: the harness plays the child: list, issue with an arbitrary resource limit, revoke; the certificate carries exactly the limit, a limit outside the offer is refused, shrinking / re-issue at a key activation / suspension apply to such certificates like to any other).",
   "§6 C02, §4.3"),
  "C03": krill_claim(
-  "Same model and binding as C01. On the recorded traces TLC keeps, per real key, the history of every object identity (issuer key + serial) ever current under the key and requires in every state that whatever is no longer current is on that key's CRL as long as the key publishes one, that nothing current is revoked, and that manifest and CRL numbers agree; withdrawn objects are gone because the projected publication content must equal the spec's. Histories cover re-issue, ROA removal, child removal/suspension, resource loss, CA deletion and key retirement by a roll.",
+  "Same model and binding as C01. On the recorded traces TLC keeps, per real key, the history of every object identity (issuer key + serial) ever current under the key and requires in every state that whatever is no longer current is on that key's CRL as long as the key publishes one, that nothing current is revoked, and that manifest and CRL numbers agree; withdrawn objects are gone because the projected publication content must equal the spec's. Histories cover re-issue, ROA removal, child removal/suspension, resource loss, CA deletion, key retirement by a roll, and revocation requests of a child that is not hosted by the instance (signed RFC 6492 messages under the class name the child was told, also a mapped one, also after the parent's class went away and came back under another name).",
   "§6 C03, §4.3"),
  "C04": krill_claim(
   "Same model and binding as C01, roll-heavy behaviours: roll initiation/activation interleaved at single-task granularity with entitlement changes, suspension, ROA changes and syncs. Decides: every key in use has a certificate, staging key publishes manifest+CRL only, after activation products move to the new key in one publication (old key's products tracked separately until the next sync), activation is refused only in the two cases the spec predicts, and every settle ends in the single-active-key state or at rest in roll_new.",
@@ -98,13 +98,13 @@ CLAIMED.update({
  "C16": {
   "technique": "TLA+ catalogue model (spec/Malformed.tla: endpoint x malformation class x context, the only permitted outcome of a malformed input is error reply and unchanged state) checked with TLC; TLC enumerates all vectors; the harness concretises each with seeded instances and feeds them to the real entry points inside catch_unwind and through the real HTTP request processing; TLC (MalformedTrace.tla) judges every recorded outcome",
   "level": "exploration",
-  "text": "TLC model-checks Malformed.tla (AlwaysAlive, AlwaysAnswers = ENABLED Malformed for every vector in every state, ErrorLeavesState) and enumerates all 4776 vectors of context x endpoint (29) x class (129) x addressed entity x channel. Every vector becomes seeded instances - structured mutations of a valid message of that endpoint (signed CMS with garbage or odd XML, DER tag/length flips, JSON type/number/nesting/duplicate mutations, ROA / prefix / ASN / resource-set / handle / certificate / URI value classes, path-segment mutations) or raw random bytes - run on the real code through two channels: direct (CaManager::rfc6492, RepositoryManager::rfc8181, serde decoding of the API request types followed by the manager call the dispatcher makes, the FromStr parsers of stored notations, BgpAnalyser) inside catch_unwind, and http (the real HttpServer::process_request: authentication, dispatcher, thread pool). Recorded per vector and distinct outcome: kind of reply, whether the configuration digest or the published-content digest changed, panic location; panic, exit, a non-reply, an error reply with a changed digest and an ok reply to a by-construction-malformed class match no action of the trace spec. The catalogue is covered completely, the byte space is sampled (quick ~48 k inputs, thorough ~850 k): a clean run is no proof of absence.",
+  "text": "TLC model-checks Malformed.tla (AlwaysAlive, AlwaysAnswers = ENABLED Malformed for every vector in every state, ErrorLeavesState) and enumerates all 4920 vectors of context x endpoint (29) x class (130; among them correctly signed requests that collide with each other or with what a preceding request - or the server's operator, who makes the CA's resource class go away and come back under another name - left behind) x addressed entity x channel. Every vector becomes seeded instances - structured mutations of a valid message of that endpoint (signed CMS with garbage or odd XML, DER tag/length flips, JSON type/number/nesting/duplicate mutations, ROA / prefix / ASN / resource-set / handle / certificate / URI value classes, path-segment mutations) or raw random bytes - run on the real code through two channels: direct (CaManager::rfc6492, RepositoryManager::rfc8181, serde decoding of the API request types followed by the manager call the dispatcher makes, the FromStr parsers of stored notations, BgpAnalyser) inside catch_unwind, and http (the real HttpServer::process_request: authentication, dispatcher, thread pool). Recorded per vector and distinct outcome: kind of reply, whether the configuration digest or the published-content digest changed, panic location; panic, exit, a non-reply, an error reply with a changed digest and an ok reply to a by-construction-malformed class match no action of the trace spec. The catalogue is covered completely, the byte space is sampled (quick ~48 k inputs, thorough ~850 k): a clean run is no proof of absence.",
   "note": "Harness profile has release arithmetic (overflow-checks=false, debug-assertions=false) and panic=unwind; process::exit is observed through about_to_exit; process deaths that are not panics through the harness exit status. The http channel has no scheduler thread. Status records are not configuration. Classification of replies, mutators and seeds are trusted. Known findings: two panics inside the rpki crate, bulk import and child update not atomic.",
   "ref": "§6 C16", "engines": ["TLC", "kv-fuzz"]},
  "C08": {
   "technique": "TLA+ model of the mutation pipeline (spec/PipelineDefs.tla, Pipeline.tla: every operation split into its real sequence of key-value and file-system mutations, Crash(k) / IoError(k) between any two, Restart, Pump, Resubmit) checked with TLC (-continue: the set of bad cuts of the design); every cut of every operation instance enumerated on the real code through the fault points; TLC (PipelineTrace.tla) judges every executed cut",
   "level": "fault_enumeration",
-  "text": "Seven scenarios (roa, chain, roll, create, maint, trunc, remove) expand into 73 operation instances: 17 API request kinds and the task kinds sync_parent (both halves, revocation variant), sync_repo, update_rrdp, in the state classes active key, roll_new, roll_old, pending key, queued / unqueued synchronisation, last / not-last publication. The real mutation sequence of each instance is recorded with the fault injector in Count mode; every cut k = 1..N x {crash, failing write} gives 1486 cases (thorough: all; quick: 200 seeded cases covering all 164 kind x mutation-class x mode strata). Each case runs on the disk back-end: a crash is a fresh runtime on the surviving directory plus the start-up lines of the scheduler; then pump, resubmit, the rest of the chain, settle; a fault-free twin runs once per scenario. TLC checks per case that the mutations before the cut are the twin's, that the durable key set equals the fold of the mutations that took effect, that the process goes down and the request is acknowledged exactly where the model says, and evaluates the clauses AllLoad, AckedNeverLost, UnackedAllOrNothing (audit log, memory, object set), RPCleanAfterRestart / AfterPump / Final (relying-party walk over server content, on-disk RRDP snapshot and rsync tree, relative to the twin) and TwinEquivalence on the observed facts; verdicts are compared with the model's predictions.",
+  "text": "Ten scenarios (roa, chain, roll, create, maint, trunc, pubrm, pubadd, remote, remove) expand into 99 operation instances: 24 API request kinds (among them the provisioning requests of a child that is not hosted by the instance: issuance with and without a resource limit, the call-in of a suspended child, revocation, as signed messages through CaManager::rfc6492) and the task kinds sync_parent (both halves, revocation variant), sync_repo, update_rrdp, in the state classes active key, roll_new, roll_old, pending key, queued / unqueued synchronisation, last / not-last publication. The real mutation sequence of each instance is recorded with the fault injector in Count mode; every cut k = 1..N x {crash, failing write} gives 2044 cases (thorough: all; quick: 220 seeded cases covering every kind x mutation-class x mode stratum). Each case runs on the disk back-end: a crash is a fresh runtime on the surviving directory plus the start-up lines of the scheduler; then pump, resubmit, the rest of the chain, settle; a fault-free twin runs once per scenario. TLC checks per case that the mutations before the cut are the twin's, that the durable key set equals the fold of the mutations that took effect, that the process goes down and the request is acknowledged exactly where the model says, and evaluates the clauses AllLoad, AckedNeverLost, UnackedAllOrNothing (audit log, memory, object set), RPCleanAfterRestart / AfterPump / Final (relying-party walk over server content, on-disk RRDP snapshot and rsync tree, relative to the twin) and TwinEquivalence on the observed facts; verdicts are compared with the model's predictions.",
   "note": "Assumed: a disk back-end mutation is atomic (cuts are between mutations, never inside one); one fault per history; the label-to-effect translation; same-millisecond task ties resolved in a fixed order; passing time replaced by making rescheduled tasks due; single resource class, local parent and local repository. The ta_proxy / ta_signer / keys / signers namespaces are cut points but their durable effect is not compared. Known findings: the pre-save ordering (upstream issue 1182) and its non-converging consequences, RRDP/rsync files not rewritten after a failed update, publish delta stored but update task lost, no rsync current directory between the two renames, post-save reschedule drops a sync task, delete_ca withdraws best effort.",
   "ref": "§6 C08", "engines": ["TLC", "kv-fault"]},
  "C18": {
@@ -122,7 +122,7 @@ CLAIMED.update({
  "C20": {
   "technique": "TLA+ provider-chain and login-rule model (spec/Authz.tla) checked with TLC; TLC-enumerated credential rows concretised and sent to the real daemon; TLC (AuthzTrace.tla) judges every recorded request",
   "level": "model_checking",
-  "text": "Authz.tla states who a request acts as (admin token verbatim / session issued by this instance for a configured user / mapped Unix peer / nobody) and when login succeeds. TLC checks OnlyGenuineCredentials, AdminOnlyByAdminToken, NoPeerOverTcp, foreign or stale sessions, LoginRule. 332 table rows (credential class x transport x peer mapping, login table of 20 typed names x 7 password classes) are enumerated completely in both tiers; each is concretised (truncations, bit flips, re-encodings, token of a second instance, name variants) and judged by a fingerprint of eight probe routes plus the audit actor. The token-mutation families are exploration and labelled so in the evidence.",
+  "text": "Authz.tla states who a request acts as (admin token verbatim / session issued by this instance for a configured user / mapped Unix peer / nobody) and when login succeeds. TLC checks OnlyGenuineCredentials, AdminOnlyByAdminToken, NoPeerOverTcp, foreign or stale sessions, LoginRule. 360 table rows (credential class x transport x peer mapping, login table of 22 typed names x 7 password classes; two configured accounts have a password hash no password matches: empty, not hexadecimal) are enumerated completely in both tiers; each is concretised (truncations, bit flips, re-encodings, token of a second instance, name variants) and judged by a fingerprint of eight probe routes plus the audit actor. The token-mutation families are exploration and labelled so in the evidence.",
   "note": "Assumed: strength of ChaCha20-Poly1305/scrypt; surrounding white space of the bearer value is not part of the credential; password comparison modulo trim+NFKC; sessions do not expire, logout is outside the property.",
   "ref": "§6 C20, §4.5", "engines": ["TLC", "kv-http"]},
 })
